@@ -330,6 +330,7 @@ func runC09(c *Ctx) {
 	if crashed, what := server.Crashed(); crashed {
 		c.R.Set("server_crash", what)
 	}
+	c.Require("verifications:library", "verifications:cli", "verifications:http", "verifications:bulk", "history:doc-edited-stale", "history:doc-edited-invalid-stale")
 }
 
 func runWithTimeout(cmd *exec.Cmd, d time.Duration) error {
